@@ -98,3 +98,96 @@ def structures(n_dim):
     """All admissible conditional_on lists: conditional_on[0] is None, conditional_on[i] in {None, 0..i-1}."""
     opts = [[None]] + [[None] + list(range(i)) for i in range(1, n_dim)]
     return [list(s) for s in itertools.product(*opts)]
+
+
+# ---------------------------------------------------------------- joint models
+COEF = {"scale": (1.5, 1.0), "shape": (1.2, 0.8), "loc": (0.3, 0.4), "mu": (0.4, 0.5), "sigma": (0.3, 0.4),
+        "delta": (1.5, 1.5), "kappa": (1.0, 3.0), "lambda": (0.4, 0.5), "mean": (2.0, 1.5), "std": (0.8, 0.6),
+        "vmu": (0.2, 1.0)}
+MID = {"WeibullDistribution": dict(alpha=1.5, beta=1.6, gamma=0.5),
+       "LogNormalDistribution": dict(mu=0.5, sigma=0.4),
+       "NormalDistribution": dict(mu=0.5, sigma=0.6),
+       "LogNormalNormFitDistribution": dict(mu_norm=2.0, sigma_norm=0.8),
+       "ExponentiatedWeibullDistribution": dict(alpha=1.4, beta=1.5, delta=2.0),
+       "GeneralizedGammaDistribution": dict(m=1.5, c=1.4, lambda_=0.7),
+       "VonMisesDistribution": dict(kappa=2.0, mu=0.3),
+       "GumbelR": dict(loc=0.5, scale=0.6),
+       "GammaS": dict(a=2.0, loc=0.5, scale=0.6),
+       "WeibullMinS": dict(c=1.6, loc=0.5, scale=1.5)}
+# which parameters are dependent when the family is used as a conditional dimension (the rest is fixed)
+DEPENDENT = {"WeibullDistribution": ("alpha", "beta"), "LogNormalDistribution": ("mu", "sigma"),
+             "NormalDistribution": ("mu", "sigma"), "LogNormalNormFitDistribution": ("mu_norm", "sigma_norm"),
+             "ExponentiatedWeibullDistribution": ("alpha", "beta"), "GeneralizedGammaDistribution": ("c", "lambda_"),
+             "VonMisesDistribution": ("kappa", "mu"), "GumbelR": ("loc", "scale"), "GammaS": ("a", "scale"),
+             "WeibullMinS": ("c", "scale")}
+ASSIGN = {"A": ("inc", "dec"), "B": ("dec", "const"), "C": ("const", "inc")}
+
+
+def shape_func(shape, a, b):
+    if shape == "inc":
+        def f(x, a=a, b=b):
+            return a + b * x * x / (1.0 + x * x)
+    elif shape == "dec":
+        def f(x, a=a, b=b):
+            return a + b / (1.0 + x * x)
+    else:
+        def f(x, a=a):
+            return a + 0.0 * x
+    return f
+
+
+def raw_shape(shape, g, a, b):
+    g = np.asarray(g, dtype=float)
+    if shape == "inc":
+        return a + b * g * g / (1.0 + g * g)
+    if shape == "dec":
+        return a + b / (1.0 + g * g)
+    return a + 0.0 * g
+
+
+def cond_dim(family, assign="A"):
+    """(template instance, parameters dict of DependenceFunctions, theta(g) reference function)."""
+    cls, names, roles = FAMILIES[family]
+    role = dict(zip(names, roles))
+    deps = DEPENDENT[family]
+    fixed = {"f_" + n: MID[family][n] for n in names if n not in deps}
+    params, tf = {}, {}
+    for n, shape in zip(deps, ASSIGN[assign]):
+        a, b = COEF[role[n]]
+        params[n] = DependenceFunction(shape_func(shape, a, b))
+        tf[n] = (shape, a, b)
+
+    def theta(g):
+        th = {n: MID[family][n] for n in names if n not in deps}
+        for n, (shape, a, b) in tf.items():
+            th[n] = float(raw_shape(shape, g, a, b))
+        return th
+
+    return cls(**fixed), params, theta
+
+
+def build_model(fams, cond_on, assign="A"):
+    """fams: family names per dimension, cond_on: list of None/int. Returns (model, thetas) where thetas[i] is None
+    for an unconditional dimension or the reference theta(g) function."""
+    descs, thetas = [], []
+    for f, c in zip(fams, cond_on):
+        if c is None:
+            descs.append({"distribution": make(f, MID[f])})
+            thetas.append(None)
+        else:
+            tmpl, params, theta = cond_dim(f, assign)
+            descs.append({"distribution": tmpl, "conditional_on": c, "parameters": params})
+            thetas.append(theta)
+    return GlobalHierarchicalModel(descs), thetas
+
+
+def rosenblatt_u(model, X):
+    """u = Phi^-1(F_i(x_i | x_cond(i))) row by row with scalar given, using the model's own cdfs."""
+    import scipy.special as sp
+    X = np.asarray(X, dtype=float)
+    P = np.empty_like(X)
+    for i, d in enumerate(model.distributions):
+        c = model.conditional_on[i]
+        for r in range(len(X)):
+            P[r, i] = float(d.cdf(float(X[r, i]))) if c is None else float(d.cdf(float(X[r, i]), given=float(X[r, c])))
+    return sp.ndtri(P), P
